@@ -24,6 +24,7 @@ func init() {
 			"R2 in the gate type's ServeDIAM the wrapped function is called exactly under the ok result of smpeer.FromContext(c.Context()) of the connection parameter (dominated by the ok edge and guarded by nothing else), and FromContext's ok is the comma-ok of a *Metadata type assertion on ctx.Value(metadataKey); " +
 			"R3 every smpeer.NewContext call in the library flows into Conn.SetContext and is dominated by the nil-error edge of a CER/CEA Parse call — and, on the server side, by the nil-error edge of the function that writes the success CEA; " +
 			"R4 StateMachine.HandleFunc/HandleIdx cannot reach their registration for the keys CER, CEA, DWR / (0,257,R), (0,257,A), (0,280,R). " +
+			"R5 the state machine's own ServeDIAM hands every message, with the same connection and message, to its mux on every path (no message is answered or dropped in front of the gate). R3 is decided at the call sites that supply the values when the construction is wrapped in helpers (parameters lifted to their only library call site). " +
 			"Not decided: message histories as executions, the dispatch precedence (C09), applications that call smpeer.NewContext themselves.",
 		Rules: map[string]string{
 			"R1": "each ServeMux registration in package sm: handler is built-in or passes through the gate type; sm.mux does not escape",
